@@ -291,3 +291,85 @@ Theorem delete_table_without_bitmap_json_refuted :
 Proof.
   exists [116], (KJson [116] [107]). repeat split; try (intros [H|[]]; discriminate).
 Qed.
+
+(* ---------- LTRIM above RangeDeleteNum: the DeleteRange over sequence keys ---------- *)
+
+Lemma list_range_ropen_gen t k a b x : no_sep t -> len16 k -> wf_ekey x ->
+  (0 <= a)%Z -> int64_ok a -> (0 <= b)%Z -> int64_ok b ->
+  in_range (l_encode_list_key t k a) (l_encode_list_key t k b) (encode_ekey x) = true <->
+  exists seq, x = KList t k seq /\ (a <= seq < b)%Z.
+Proof.
+  intros Ht Hk Hx Ha Ha' Hb Hb'. rewrite !list_key_base, in_range_iff.
+  assert (Hcmp : forall seq, int64_ok seq ->
+    in_range (be 8 (u64_of_z a)) (be 8 (u64_of_z b)) (be 8 (u64_of_z seq)) = true <-> (a <= seq < b)%Z).
+  { intros seq Hs. unfold in_range. rewrite andb_true_iff, bytes_leb_cmp, bytes_ltb_cmp.
+    rewrite !be_cmp_exact by (rewrite <- two64_pow; apply u64_of_z_lt).
+    rewrite N.compare_le_iff, N.compare_lt_iff. unfold int64_ok in *.
+    rewrite (u64_of_z_nonneg a), (u64_of_z_nonneg b) by lia.
+    destruct (Z.ltb_spec seq 0).
+    - rewrite u64_of_z_neg by lia. lia.
+    - rewrite u64_of_z_nonneg by lia. lia. }
+  split.
+  - intros [s [E Hr]]. unfold list_base in E. rewrite <- app_assoc in E.
+    apply encode_with_table_prefix in E; [|assumption|reflexivity|assumption].
+    destruct E as (Hty & Htab & Hrest).
+    destruct (wf_type_list x Hx Hty) as (t' & k' & seq & ->).
+    cbn [ekey_table ekey_rest wf_ekey] in *. subst t'. destruct Hx as (_ & Lk & Sq).
+    rewrite <- app_assoc in Hrest. apply len16_prefixed_inj in Hrest; [|assumption|assumption].
+    destruct Hrest as [-> <-]. exists seq. split; [reflexivity|]. now apply Hcmp.
+  - intros [seq [-> Hs]]. exists (be 8 (u64_of_z seq)). split; [apply list_key_base|].
+    apply Hcmp; [|assumption]. cbn in Hx. tauto.
+Qed.
+
+Lemma delete_range_map (lo hi : bytes) (xs : list ekey) (p : ekey -> bool) : Forall wf_ekey xs ->
+  (forall x, wf_ekey x -> in_range lo hi (encode_ekey x) = p x) ->
+  delete_range lo hi (map encode_ekey xs) = map encode_ekey (filter (fun x => negb (p x)) xs).
+Proof.
+  intros Hxs H. unfold delete_range. rewrite filter_map. f_equal.
+  apply (filter_ext_Forall wf_ekey); [assumption|]. intros x Hx. now rewrite H.
+Qed.
+
+(* the head-end DeleteRange of LTRIM removes exactly the elements below the new head ... *)
+Theorem ltrim_head_exact t k head start xs : no_sep t -> len16 k -> Forall wf_ekey xs ->
+  (0 <= head)%Z -> (0 < start)%Z -> int64_ok head -> int64_ok (head + start) ->
+  delete_range (fst (ltrim_head_range t k head start)) (snd (ltrim_head_range t k head start)) (map encode_ekey xs) =
+  map encode_ekey (filter (fun x => negb (is_list_elem_of t k head (head + start - 1) x)) xs).
+Proof.
+  intros Ht Hk Hxs H0 Hs Hh Hhs. apply delete_range_map; [assumption|]. intros x Hx. cbn [ltrim_head_range fst snd].
+  apply bool_eq_iff. rewrite list_range_ropen_gen; try assumption; try lia.
+  destruct x; cbn [is_list_elem_of]; try (split; [intros (s & H & _); discriminate|discriminate]).
+  rewrite !andb_true_iff, !bytes_eqb_eq, !Z.leb_le. split.
+  - intros (s & H & Hr). injection H as -> -> ->. repeat split; try reflexivity; lia.
+  - intros [[[-> ->] A] B]. exists seq. split; [reflexivity|lia].
+Qed.
+
+(* ... in particular the new head element survives, and one sequence more would delete it *)
+Theorem ltrim_head_keeps_new_head t k head start : no_sep t -> len16 k ->
+  (0 <= head)%Z -> (0 < start)%Z -> int64_ok head -> int64_ok (head + start) -> int64_ok (head + start + 1) ->
+  in_range (fst (ltrim_head_range t k head start)) (snd (ltrim_head_range t k head start))
+           (encode_ekey (KList t k (head + start))) = false /\
+  in_range (l_encode_list_key t k head) (l_encode_list_key t k (head + start + 1))
+           (encode_ekey (KList t k (head + start))) = true.
+Proof.
+  intros Ht Hk H0 Hs Hh Hhs Hhs1. cbn [ltrim_head_range fst snd].
+  assert (Hw : wf_ekey (KList t k (head + start))) by (cbn; tauto).
+  split.
+  - destruct (in_range _ _ _) eqn:E; [|reflexivity].
+    apply list_range_ropen_gen in E; try assumption; try lia. destruct E as (s & Hq & Hr). injection Hq as <-. lia.
+  - apply list_range_ropen_gen; try assumption; try lia. exists (head + start)%Z. split; [reflexivity|lia].
+Qed.
+
+(* the tail-end DeleteRange removes exactly the elements after the new tail *)
+Theorem ltrim_tail_exact t k head stop llen xs : no_sep t -> len16 k -> Forall wf_ekey xs ->
+  (0 <= head)%Z -> (0 <= stop)%Z -> (stop < llen)%Z -> int64_ok head -> int64_ok (head + llen) ->
+  delete_range (fst (ltrim_tail_range t k head stop llen)) (snd (ltrim_tail_range t k head stop llen)) (map encode_ekey xs) =
+  map encode_ekey (filter (fun x => negb (is_list_elem_of t k (head + stop + 1) (head + llen - 1) x)) xs).
+Proof.
+  intros Ht Hk Hxs H0 Hs Hl Hh Hhl. apply delete_range_map; [assumption|]. intros x Hx. cbn [ltrim_tail_range fst snd].
+  assert (int64_ok (head + stop + 1)) by (unfold int64_ok in *; lia).
+  apply bool_eq_iff. rewrite list_range_ropen_gen; try assumption; try lia.
+  destruct x; cbn [is_list_elem_of]; try (split; [intros (s & Hq & _); discriminate|discriminate]).
+  rewrite !andb_true_iff, !bytes_eqb_eq, !Z.leb_le. split.
+  - intros (s & Hq & Hr). injection Hq as -> -> ->. repeat split; try reflexivity; lia.
+  - intros [[[-> ->] A] B]. exists seq. split; [reflexivity|lia].
+Qed.
